@@ -13,10 +13,18 @@
 (*                      assigned, give nothing to non-recipients, and the package index is       *)
 (*                      defined iff the candidate is a recipient (the clauses imply the          *)
 (*                      user-level statement of the property).                                   *)
+(*  - after the lottery, a set of KEY-LESS candidates (no / malformed public key in the state)   *)
+(*    is chosen (layouts of at most KLMaxN candidates): every subset of at most MaxKL            *)
+(*    candidates for layouts of at most KLFullN                                                  *)
+(*    candidates, KLSamples layout-dependent subsets (a singleton or a pair, alternating with    *)
+(*    the layout) above; EndToEnd is                                                             *)
+(*    checked again with a packager that keeps a (useless) entry for a key-less recipient, and   *)
+(*    every (layout, key-less assignment) is exported as a case for the ceremony-level runs.     *)
 EXTENDS Lottery, Json
-CONSTANTS MaxN, MaxK, Qs, Rots, ExportOn
+CONSTANTS MaxN, MaxK, Qs, Rots, ExportOn,
+          MaxKL, KLFullN, KLSamples, KLMaxN
 
-VARIABLES phase      \* "layout" (a layout was chosen) | "eval" (the reference lottery ran)
+VARIABLES phase      \* "layout" (a layout was chosen) | "eval" (the reference lottery ran) | "keys" (key-less candidates chosen)
 VARIABLES lay0       \* the layout of this behaviour
 mvars == <<lvars, phase, lay0>>
 
@@ -24,7 +32,8 @@ RECURSIVE SumTo(_, _)
 SumTo(k, i) == IF i = 0 THEN 0 ELSE SumTo(k, i - 1) + k[i]
 RECURSIVE FaOf(_, _)
 FaOf(k, i) == IF i > Len(k) THEN <<>> ELSE [j \in 1..k[i] |-> i - 1] \o FaOf(k, i + 1)
-MkLayout(k) == [n |-> Len(k), k |-> k, fo |-> [i \in 1..Len(k) |-> [j \in 1..k[i] |-> SumTo(k, i - 1) + j - 1]], fa |-> FaOf(k, 1), tag |-> "model"]
+MkLayout(k) == [n |-> Len(k), k |-> k, fo |-> [i \in 1..Len(k) |-> [j \in 1..k[i] |-> SumTo(k, i - 1) + j - 1]], fa |-> FaOf(k, 1),
+                kl |-> [i \in 1..Len(k) |-> 0], tag |-> "model"]
 Off(lay, c) == lay.fo[c + 1][1]      \* first flip of author c
 
 RECURSIVE SortAsc(_)
@@ -55,34 +64,68 @@ RefOut(lay, q, r) ==
           short |-> [c \in 1..lay.n |-> RefShort(lay, q, r, c - 1)],
           long |-> [c \in 1..lay.n |-> RefLong(lay, q, r, c - 1)]]
 
-(* faithful packaging: the package of a is candidatesPerAuthor[a]; c finds its entry by position *)
+(* faithful packaging: the package of a is candidatesPerAuthor[a], one entry per position (an    *)
+(* entry nobody can decrypt for a key-less recipient); c finds its entry by position             *)
 IdxOf(s, c) == IF c \in ToSet(s) THEN (CHOOSE i \in 1..Len(s) : s[i] = c /\ \A j \in 1..(i - 1) : s[j] # c) - 1 ELSE -1
+ModelRecips(lay, o, a) == [i \in 1..Len(o.cpa[a + 1]) |-> Canon(lay, o.cpa[a + 1][i])]
 ModelTries(lay, o, c) ==
     {[f |-> f, idx |-> IdxOf(o.cpa[Author(lay, f) + 1], c),
-      at |-> IF IdxOf(o.cpa[Author(lay, f) + 1], c) = -1 THEN -1 ELSE c,
-      res |-> IF IdxOf(o.cpa[Author(lay, f) + 1], c) = -1 THEN "nokey" ELSE "ok"] : f \in FlipIds(lay)}
+      at |-> IF IdxOf(o.cpa[Author(lay, f) + 1], c) = -1 THEN -1 ELSE Canon(lay, c),
+      res |-> IF IdxOf(o.cpa[Author(lay, f) + 1], c) = -1 \/ Keyless(lay, c) THEN "nokey" ELSE "ok"] : f \in FlipIds(lay)}
 ModelExt(lay, o, a) ==
-    {[idx |-> i, who |-> w, res |-> IF i < Len(o.cpa[a + 1]) THEN (IF o.cpa[a + 1][i + 1] = w THEN "ok" ELSE "fail") ELSE "err"]
+    {[idx |-> i, who |-> w, res |-> IF i < Len(o.cpa[a + 1]) THEN (IF o.cpa[a + 1][i + 1] = w /\ ~Keyless(lay, w) THEN "ok" ELSE "fail") ELSE "err"]
         : i \in 0..Len(o.cpa[a + 1]), w \in Cands(lay)}
+
+(* key-less assignments of a layout.  Kinds: the smallest key-less candidate has no key (1) or a *)
+(* malformed one (2) depending on the layout, the others alternate: a pair always has both.      *)
+Hash(lay) == SumTo([i \in 1..lay.n |-> lay.k[i] * i], lay.n) + lay.n
+Sampled(lay, j) == LET n == lay.n  h == Hash(lay) + j
+                       a == h % n
+                       b == (a + 1 + ((h \div n) % (n - 1))) % n
+                   IN IF h % 2 = 1 \/ n < 2 THEN {a} ELSE {a, b}
+KLSets(lay) == IF lay.n = 0 \/ lay.n > KLMaxN THEN {}
+               ELSE IF lay.n <= KLFullN THEN {S \in SUBSET Cands(lay) : S # {} /\ Cardinality(S) <= MaxKL}
+               ELSE {Sampled(lay, j) : j \in 1..KLSamples}
+Rank(S, c) == Cardinality({d \in S : d < c})
+KlOf(lay, S) == [i \in 1..lay.n |-> IF (i - 1) \in S THEN 1 + ((Hash(lay) + Rank(S, i - 1)) % 2) ELSE 0]
 
 ---------------------------------------------------------------------------
 MInit == /\ LInit /\ phase = "layout"
          /\ \E n \in 0..MaxN : \E k \in [1..n -> 0..MaxK] : lay0 = MkLayout(k)
 
-MNext == /\ phase = "layout" /\ phase' = "eval" /\ lay0' = lay0
-         /\ \E q \in Qs, r \in Rots : Evaluate(lay0, q, r, RefOut(lay0, q, r))
+MinOf(S) == CHOOSE x \in S : \A y \in S : x <= y
+MNext == \/ /\ phase = "layout" /\ phase' = "eval" /\ lay0' = lay0
+            /\ \E q \in Qs, r \in Rots : Evaluate(lay0, q, r, RefOut(lay0, q, r))
+         \/ /\ phase = "eval" /\ cur.seed = MinOf(Rots) /\ phase' = "keys" /\ lay0' = lay0
+            /\ \E S \in KLSets(lay0) : cur' = [cur EXCEPT !.lay.kl = KlOf(lay0, S)]
+            /\ memo' = memo
 
 RefAdmissible == phase = "layout" => /\ LayoutOK(lay0)
                                      /\ \A q \in Qs, r \in Rots : Admissible(lay0, q, RefOut(lay0, q, r))
-EndToEnd == phase = "eval" =>
-    /\ \A a \in Cands(cur.lay) : PackageVerdict(cur.lay, cur.out, a, cur.out.cpa[a + 1] # <<>>, cur.out.cpa[a + 1], ModelExt(cur.lay, cur.out, a), TRUE, 0) = {}
+EndToEnd == phase \in {"eval", "keys"} =>
+    /\ LayoutOK(cur.lay)
+    /\ \A a \in Cands(cur.lay) : PackageVerdict(cur.lay, cur.out, a, cur.out.cpa[a + 1] # <<>>, ModelRecips(cur.lay, cur.out, a), ModelExt(cur.lay, cur.out, a), TRUE, 0) = {}
     /\ \A c \in Cands(cur.lay) : SolveVerdict(cur.lay, cur.out, c,
                                               IF NF(cur.lay) = 0 THEN <<>> ELSE cur.out.short[c + 1],
                                               IF NF(cur.lay) = 0 THEN <<>> ELSE cur.out.long[c + 1],
                                               ModelTries(cur.lay, cur.out, c), {}) = {}
 
-\* one case per layout
-ExportInv == (ExportOn /\ phase = "layout") =>
-    PrintT(ToJson([n |-> lay0.n, k |-> lay0.k, flips |-> NF(lay0),
-                   authors |-> Cardinality({c \in Cands(lay0) : IsAuthor(lay0, c)})]))
+\* one case per layout and one per (layout, key-less assignment)
+ExportInv ==
+    /\ (ExportOn /\ phase = "layout") =>
+          PrintT(ToJson([n |-> lay0.n, k |-> lay0.k, kl |-> lay0.kl, flips |-> NF(lay0),
+                         authors |-> Cardinality({c \in Cands(lay0) : IsAuthor(lay0, c)})]))
+    /\ (ExportOn /\ phase = "keys" /\ cur.q = MinOf(Qs)) =>
+          PrintT(ToJson([n |-> lay0.n, k |-> lay0.k, kl |-> cur.lay.kl, flips |-> NF(lay0),
+                         authors |-> Cardinality({c \in Cands(lay0) : IsAuthor(lay0, c)})]))
+
+\* a packager that SKIPS key-less recipients (entries shift) is rejected by the clauses: sanity of PackageEntry
+SkipExt(lay, o, a) ==
+    LET kept == SelectSeq(o.cpa[a + 1], LAMBDA c : ~Keyless(lay, c)) IN
+    {[idx |-> i, who |-> w, res |-> IF i < Len(kept) THEN (IF kept[i + 1] = w THEN "ok" ELSE "fail") ELSE "err"]
+        : i \in 0..Len(o.cpa[a + 1]), w \in Cands(lay)}
+SkipRejected == phase = "keys" =>
+    \A a \in Cands(cur.lay) :
+        (\E i \in 1..Len(cur.out.cpa[a + 1]) : Keyless(cur.lay, cur.out.cpa[a + 1][i]))
+        => "PackageEntry" \in PackageVerdict(cur.lay, cur.out, a, TRUE, ModelRecips(cur.lay, cur.out, a), SkipExt(cur.lay, cur.out, a), TRUE, 0)
 =============================================================================
